@@ -13,9 +13,14 @@
 (*       as one FIFO server here; refined by DMA.tla)         -> GPUHandle *)
 (*   L2 write-back of a dirty byte at any time                -> Evict     *)
 (*                                                                         *)
-(* One process, one command queue (commands are serialised by the queue),  *)
+(* One process, one or more command queues (a queue runs one command at a  *)
+(* time; the driver processes the queues concurrently, so a copy of one    *)
+(* queue can be started while a kernel of another queue is still running), *)
 (* several contexts sharing the process' address space, memory distributed *)
-(* page-wise over several GPUs.  Bytes are tagged values, so a byte that   *)
+(* page-wise over several GPUs.  A kernel is accepted by the command       *)
+(* processor (GPUHandle) and finishes later (KernelFinish): only then are  *)
+(* its stores in the caches, and only a flush sent after that point makes  *)
+(* them visible to the DMA engine.  Bytes are tagged values, so a byte that   *)
 (* lands at the wrong place or comes from the wrong copy is visible.       *)
 (*                                                                         *)
 (* `arch' is the history variable of the property: the contents device     *)
@@ -32,6 +37,11 @@
 (*                            contains the buffer"                         *)
 (*   "empty_copy_no_complete" a copy of zero bytes that needs no flush has *)
 (*                            no request whose answer could complete it    *)
+(*   "clean_when_flush_queued" (a seeded optimisation, not the pinned      *)
+(*                            tree) queuing a flush marks every buffer of  *)
+(*                            the process clean: sound with one queue,     *)
+(*                            unsound when the flush overtakes the stores  *)
+(*                            of a kernel that is still running            *)
 (***************************************************************************)
 EXTENDS CopyOps, FiniteSets, TLC
 
@@ -43,6 +53,7 @@ CONSTANTS
   PhysPage,    \* tuple: physical page number of virtual page i-1 (a permutation of 0..NPages-1)
   Bufs,        \* tuple of [s |-> first byte, n |-> size in bytes, ctx |-> owning context]
   Ctxs,        \* set of contexts (all share the process id)
+  Queues,      \* set of command queues
   Ranges,      \* set of <<va, n>> the host may copy
   KWrites,     \* set of sets of virtual addresses a kernel may write
   MaxCmds,     \* commands per behaviour
@@ -55,7 +66,8 @@ VARIABLES
   bdirty,    \* [DOMAIN Bufs -> BOOLEAN]   driver.buffer.l2Dirty
   nlive,     \* buffers 1..nlive are allocated (addresses grow with allocation order: allocatePages)
   ncmd,      \* commands started so far (= id of the current one)
-  cur,       \* the command the queue is running, k = "none" when idle
+  cur,       \* [Queues -> the command the queue is running], k = "none" when idle
+  krun,      \* [GPUs -> launch request of the kernel running there], k = "none" when none
   awaiting,  \* Seq(req)   defaultMemoryCopyMiddleware.awaitingReqs
   toSend,    \* Seq(req)   Driver.requestsToSend
   chan,      \* [GPUs -> Seq(req)]  requests on their way to / waiting at the command processor of g
@@ -70,7 +82,7 @@ VARIABLES
   result,    \* [1..MaxCmds -> tuple of Val]  what a D2H handed to the host
   expect     \* [1..MaxCmds -> tuple of Val]  arch over the range when it completed
 
-vars == <<dram, cache, bdirty, nlive, ncmd, cur, awaiting, toSend, chan, rsp, nreq,
+vars == <<dram, cache, bdirty, nlive, ncmd, cur, krun, awaiting, toSend, chan, rsp, nreq,
           arch, done, answered, taken, issued, result, expect>>
 
 NoVal  == <<>>
@@ -84,6 +96,7 @@ DevOfVA(a) == PageDev[VPage(a) + 1]
 VAofPA(p) == CHOOSE a \in VAddr : PA(a) = p
 DevOfPA(p) == DevOfVA(VAofPA(p))
 
+NoReq == [id |-> 0, c |-> 0, q |-> 0, k |-> "none", g |-> 0, va |-> 0, n |-> 0, off |-> 0, w |-> {}]
 Idle == [k |-> "none", id |-> 0, ctx |-> 0, va |-> 0, n |-> 0, reqs |-> {}, made |-> 0, raw |-> <<>>, w |-> {}]
 
 \* ------------------------------------------------------------ page-wise split
@@ -112,7 +125,8 @@ Init ==
   /\ cache = [p \in PAddr |-> NoVal]
   /\ bdirty = [i \in BufIds |-> FALSE]
   /\ nlive = 1
-  /\ ncmd = 0 /\ cur = Idle /\ awaiting = <<>> /\ toSend = <<>>
+  /\ ncmd = 0 /\ cur = [q \in Queues |-> Idle] /\ krun = [g \in GPUs |-> NoReq]
+  /\ awaiting = <<>> /\ toSend = <<>>
   /\ chan = [g \in GPUs |-> <<>>] /\ rsp = [g \in GPUs |-> <<>>]
   /\ nreq = 0
   /\ arch = [a \in VAddr |-> <<0, PA(a)>>]
@@ -121,6 +135,17 @@ Init ==
   /\ result = [c \in 1..MaxCmds |-> <<>>] /\ expect = [c \in 1..MaxCmds |-> <<>>]
 
 \* ------------------------------------------------------------------- driver
+\* The host does not race: a copy and a kernel of different queues that are in
+\* flight together touch different bytes, and copies of different queues do not overlap in time.
+Others(q) == Queues \ {q}
+CopyMayStart(q, va, n) ==
+  \A o \in Others(q) : \/ cur[o].k = "none"
+                        \/ (cur[o].k = "kern" /\ \A a \in cur[o].w : (a < va \/ a >= va + n))
+KernMayStart(q, w) ==
+  \A o \in Others(q) : \/ cur[o].k = "none"
+                        \/ (cur[o].k \in {"h2d", "d2h"} /\ \A a \in w : (a < cur[o].va \/ a >= cur[o].va + cur[o].n))
+AllIdle == \A q \in Queues : cur[q].k = "none"
+
 SetToSeq(S) == LET RECURSIVE F(_)
                    F(T) == IF T = {} THEN <<>> ELSE LET x == CHOOSE y \in T : \A z \in T : y <= z
                                                     IN <<x>> \o F(T \ {x})
@@ -129,57 +154,61 @@ GPUSeq == SetToSeq(GPUs)
 
 \* processLaunchKernelCommand: every buffer (of the context) becomes dirty, the
 \* launch request goes straight into requestsToSend.
-StartKern(c, g, w) ==
-  /\ cur.k = "none" /\ ncmd < MaxCmds
+StartKern(q, c, g, w) ==
+  /\ cur[q].k = "none" /\ ncmd < MaxCmds /\ KernMayStart(q, w)
   /\ \A a \in w : \E i \in Live : InBuf(a, i)
   /\ ncmd' = ncmd + 1 /\ nreq' = nreq + 1
-  /\ LET r == [id |-> nreq + 1, c |-> ncmd + 1, k |-> "launch", g |-> g, va |-> 0, n |-> 0, off |-> 0]
-     IN /\ cur' = [Idle EXCEPT !.k = "kern", !.id = ncmd + 1, !.ctx = c, !.reqs = {r.id}, !.w = w]
+  /\ LET r == [NoReq EXCEPT !.id = nreq + 1, !.c = ncmd + 1, !.q = q, !.k = "launch", !.g = g, !.w = w]
+     IN /\ cur' = [cur EXCEPT ![q] = [Idle EXCEPT !.k = "kern", !.id = ncmd + 1, !.ctx = c, !.reqs = {r.id},
+                                                   !.made = 1, !.w = w]]
         /\ toSend' = Append(toSend, r)
   /\ bdirty' = [i \in BufIds |-> IF i \in SeenBy(c) THEN TRUE ELSE bdirty[i]]
-  /\ UNCHANGED <<dram, cache, nlive, awaiting, chan, rsp, arch, done, answered, taken, issued, result, expect>>
+  /\ UNCHANGED <<dram, cache, nlive, krun, awaiting, chan, rsp, arch, done, answered, taken, issued, result, expect>>
 
 \* processMemCopyH2DCommand / processMemCopyD2HCommand
-StartCopy(k, c, va, n) ==
-  /\ cur.k = "none" /\ ncmd < MaxCmds
+StartCopy(q, k, c, va, n) ==
+  /\ cur[q].k = "none" /\ ncmd < MaxCmds /\ CopyMayStart(q, va, n)
   /\ InContract(va, n)
   /\ ncmd' = ncmd + 1
   /\ LET fl == IF NeedFlush(c, va, n)
                THEN [i \in 1..Len(GPUSeq) |->
-                       [id |-> nreq + i, c |-> ncmd + 1, k |-> "flush", g |-> GPUSeq[i], va |-> 0, n |-> 0, off |-> 0]]
+                       [NoReq EXCEPT !.id = nreq + i, !.c = ncmd + 1, !.q = q, !.k = "flush", !.g = GPUSeq[i]]]
                ELSE <<>>
          sp == Split(va, n, 0)
          pc == [i \in 1..Len(sp) |->
-                  [id |-> nreq + Len(fl) + i, c |-> ncmd + 1, k |-> k, g |-> DevOfVA(sp[i].a),
-                   va |-> sp[i].a, n |-> sp[i].n, off |-> sp[i].off]]
+                  [NoReq EXCEPT !.id = nreq + Len(fl) + i, !.c = ncmd + 1, !.q = q, !.k = k, !.g = DevOfVA(sp[i].a),
+                                !.va = sp[i].a, !.n = sp[i].n, !.off = sp[i].off]]
      IN /\ nreq' = nreq + Len(fl) + Len(pc)
         /\ toSend' = toSend \o fl            \* sendFlushRequest: at once
         /\ awaiting' = awaiting \o pc        \* pieces wait for cyclesPer{H2D,D2H}
-        /\ cur' = [Idle EXCEPT !.k = k, !.id = ncmd + 1, !.ctx = c, !.va = va, !.n = n,
+        /\ cur' = [cur EXCEPT ![q] = [Idle EXCEPT !.k = k, !.id = ncmd + 1, !.ctx = c, !.va = va, !.n = n,
                                !.reqs = {fl[i].id : i \in 1..Len(fl)} \cup {pc[i].id : i \in 1..Len(pc)},
                                !.made = Len(fl) + Len(pc),
-                               !.raw = [i \in 1..n |-> NoVal]]
+                               !.raw = [i \in 1..n |-> NoVal]]]
         /\ issued' = [issued EXCEPT ![ncmd + 1] = {pc[i].id : i \in 1..Len(pc)}]
-  /\ UNCHANGED <<dram, cache, bdirty, nlive, chan, rsp, arch, done, answered, taken, result, expect>>
+        \* the seeded optimisation: the queued flush is taken to clean every buffer of the process
+        /\ bdirty' = IF fl # <<>> /\ "clean_when_flush_queued" \in Deviations
+                     THEN [i \in BufIds |-> IF i \in SeenBy(c) THEN FALSE ELSE bdirty[i]] ELSE bdirty
+  /\ UNCHANGED <<dram, cache, nlive, krun, chan, rsp, arch, done, answered, taken, result, expect>>
 
 \* AllocateMemory: the next buffer (higher addresses) becomes live, clean
 Alloc ==
-  /\ cur.k = "none" /\ nlive < Len(Bufs)
+  /\ AllIdle /\ nlive < Len(Bufs)
   /\ nlive' = nlive + 1
-  /\ UNCHANGED <<dram, cache, bdirty, ncmd, cur, awaiting, toSend, chan, rsp, nreq, arch, done, answered, taken, issued, result, expect>>
+  /\ UNCHANGED <<dram, cache, bdirty, ncmd, cur, krun, awaiting, toSend, chan, rsp, nreq, arch, done, answered, taken, issued, result, expect>>
 
 \* middleware Tick, cyclesLeft = 0
 Release ==
   /\ awaiting # <<>>
   /\ toSend' = toSend \o awaiting /\ awaiting' = <<>>
-  /\ UNCHANGED <<dram, cache, bdirty, nlive, ncmd, cur, chan, rsp, nreq, arch, done, answered, taken, issued, result, expect>>
+  /\ UNCHANGED <<dram, cache, bdirty, nlive, ncmd, cur, krun, chan, rsp, nreq, arch, done, answered, taken, issued, result, expect>>
 
 \* sendToGPUs
 DrvSend ==
   /\ toSend # <<>>
   /\ LET r == Head(toSend) IN chan' = [chan EXCEPT ![r.g] = Append(@, r)]
   /\ toSend' = Tail(toSend)
-  /\ UNCHANGED <<dram, cache, bdirty, nlive, ncmd, cur, awaiting, rsp, nreq, arch, done, answered, taken, issued, result, expect>>
+  /\ UNCHANGED <<dram, cache, bdirty, nlive, ncmd, cur, krun, awaiting, rsp, nreq, arch, done, answered, taken, issued, result, expect>>
 
 \* ---------------------------------------------------------------- one GPU
 \* The command processor serves the driver's requests in order; a copy waits
@@ -189,86 +218,100 @@ GPUHandle(g) ==
   /\ chan[g] # <<>>
   /\ LET r == Head(chan[g]) IN
      /\ chan' = [chan EXCEPT ![g] = Tail(@)]
-     /\ rsp' = [rsp EXCEPT ![g] = Append(@, r)]
-     /\ answered' = answered \cup {r.id}
      /\ CASE r.k = "flush" ->
                /\ dram' = [p \in PAddr |-> IF DevOfPA(p) = g /\ cache[p] # NoVal THEN cache[p] ELSE dram[p]]
                /\ cache' = [p \in PAddr |-> IF DevOfPA(p) = g THEN NoVal ELSE cache[p]]
-               /\ UNCHANGED <<cur, arch>>
+               /\ rsp' = [rsp EXCEPT ![g] = Append(@, r)] /\ answered' = answered \cup {r.id}
+               /\ UNCHANGED <<cur, krun>>
           [] r.k = "h2d" ->            \* the DMA engine writes DRAM directly
                /\ dram' = [p \in PAddr |-> IF InPiece(r, p)
                                            THEN <<r.c, r.off + (VAofPA(p) - r.va) + 1>> ELSE dram[p]]
-               /\ UNCHANGED <<cache, cur, arch>>
+               /\ rsp' = [rsp EXCEPT ![g] = Append(@, r)] /\ answered' = answered \cup {r.id}
+               /\ UNCHANGED <<cache, cur, krun>>
           [] r.k = "d2h" ->            \* the DMA engine reads DRAM into the command's RawData
-               /\ cur' = [cur EXCEPT !.raw = [i \in 1..cur.n |->
+               /\ cur' = [cur EXCEPT ![r.q].raw = [i \in 1..cur[r.q].n |->
                                                 IF i > r.off /\ i <= r.off + r.n THEN dram[PA(r.va + (i - r.off - 1))]
-                                                ELSE cur.raw[i]]]
-               /\ UNCHANGED <<dram, cache, arch>>
-          [] r.k = "launch" ->         \* the kernel runs; its stores end up dirty in the owner's L2
-               /\ cache' = [p \in PAddr |-> IF VAofPA(p) \in cur.w THEN <<0 - r.c, VAofPA(p)>> ELSE cache[p]]
-               /\ arch' = [a \in VAddr |-> IF a \in cur.w THEN <<0 - r.c, a>> ELSE arch[a]]
-               /\ UNCHANGED <<dram, cur>>
-  /\ UNCHANGED <<bdirty, nlive, ncmd, awaiting, toSend, nreq, done, taken, issued, result, expect>>
+                                                ELSE cur[r.q].raw[i]]]
+               /\ rsp' = [rsp EXCEPT ![g] = Append(@, r)] /\ answered' = answered \cup {r.id}
+               /\ UNCHANGED <<dram, cache, krun>>
+          [] r.k = "launch" ->         \* the kernel starts; the command processor keeps serving the requests behind it
+               /\ krun[g].k = "none" /\ krun' = [krun EXCEPT ![g] = r]
+               /\ UNCHANGED <<dram, cache, cur, rsp, answered>>
+  /\ UNCHANGED <<bdirty, nlive, ncmd, awaiting, toSend, nreq, arch, done, taken, issued, result, expect>>
+
+\* the kernel finishes: its stores are dirty in the L2 of the GPU that owns the bytes, the launch is answered
+KernelFinish(g) ==
+  /\ krun[g].k = "launch"
+  /\ LET r == krun[g] IN
+     /\ cache' = [p \in PAddr |-> IF VAofPA(p) \in r.w THEN <<0 - r.c, VAofPA(p)>> ELSE cache[p]]
+     /\ arch' = [a \in VAddr |-> IF a \in r.w THEN <<0 - r.c, a>> ELSE arch[a]]
+     /\ rsp' = [rsp EXCEPT ![g] = Append(@, r)] /\ answered' = answered \cup {r.id}
+  /\ krun' = [krun EXCEPT ![g] = NoReq]
+  /\ UNCHANGED <<dram, bdirty, nlive, ncmd, cur, awaiting, toSend, chan, nreq, done, taken, issued, result, expect>>
 
 \* the L2 may write a dirty byte back whenever it likes
 Evict(p) ==
   /\ cache[p] # NoVal
   /\ dram' = [dram EXCEPT ![p] = cache[p]] /\ cache' = [cache EXCEPT ![p] = NoVal]
-  /\ UNCHANGED <<bdirty, nlive, ncmd, cur, awaiting, toSend, chan, rsp, nreq, arch, done, answered, taken, issued, result, expect>>
+  /\ UNCHANGED <<bdirty, nlive, ncmd, cur, krun, awaiting, toSend, chan, rsp, nreq, arch, done, answered, taken, issued, result, expect>>
 
 \* ----------------------------------------------------- driver: responses
 ArchSlice(va, n) == [i \in 1..n |-> arch[va + i - 1]]
 
-Complete(c) ==
+Complete(q) ==
+  LET c == cur[q].id IN
   /\ done' = [done EXCEPT ![c] = @ + 1]
-  /\ cur' = Idle
-  /\ IF cur.k = "d2h"
-     THEN /\ result' = [result EXCEPT ![c] = cur.raw]
-          /\ expect' = [expect EXCEPT ![c] = ArchSlice(cur.va, cur.n)]
+  /\ cur' = [cur EXCEPT ![q] = Idle]
+  /\ IF cur[q].k = "d2h"
+     THEN /\ result' = [result EXCEPT ![c] = cur[q].raw]
+          /\ expect' = [expect EXCEPT ![c] = ArchSlice(cur[q].va, cur[q].n)]
           /\ UNCHANGED arch
-     ELSE IF cur.k = "h2d"
-     THEN /\ arch' = [a \in VAddr |-> IF a >= cur.va /\ a < cur.va + cur.n THEN <<c, a - cur.va + 1>> ELSE arch[a]]
+     ELSE IF cur[q].k = "h2d"
+     THEN /\ arch' = [a \in VAddr |-> IF a >= cur[q].va /\ a < cur[q].va + cur[q].n
+                                       THEN <<c, a - cur[q].va + 1>> ELSE arch[a]]
           /\ UNCHANGED <<result, expect>>
      ELSE UNCHANGED <<arch, result, expect>>
 
 \* a copy that moves nothing and flushes nothing completes when it is processed
-CompleteEmpty ==
-  /\ cur.k \in {"h2d", "d2h"} /\ cur.made = 0 /\ "empty_copy_no_complete" \notin Deviations
-  /\ Complete(cur.id)
-  /\ UNCHANGED <<dram, cache, bdirty, nlive, ncmd, awaiting, toSend, chan, rsp, nreq, answered, taken, issued>>
+CompleteEmpty(q) ==
+  /\ cur[q].k \in {"h2d", "d2h"} /\ cur[q].made = 0 /\ "empty_copy_no_complete" \notin Deviations
+  /\ Complete(q)
+  /\ UNCHANGED <<dram, cache, bdirty, nlive, ncmd, krun, awaiting, toSend, chan, rsp, nreq, answered, taken, issued>>
 
 \* Tick: the response at the head of the GPU port
 DrvTake(g) ==
   /\ rsp[g] # <<>>
   /\ LET r == Head(rsp[g])
-         left == cur.reqs \ {r.id}
+         q == r.q
+         left == cur[q].reqs \ {r.id}
      IN /\ rsp' = [rsp EXCEPT ![g] = Tail(@)]
         /\ taken' = taken \cup {r.id}
-        /\ r.id \in cur.reqs
+        /\ r.id \in cur[q].reqs
         /\ IF left = {} /\ ~(r.k = "flush" /\ "flush_rsp_no_complete" \in Deviations)
-           THEN Complete(cur.id)
-           ELSE /\ cur' = [cur EXCEPT !.reqs = left]
+           THEN Complete(q)
+           ELSE /\ cur' = [cur EXCEPT ![q].reqs = left]
                 /\ UNCHANGED <<arch, done, result, expect>>
-  /\ UNCHANGED <<dram, cache, bdirty, nlive, ncmd, awaiting, toSend, chan, nreq, answered, issued>>
+  /\ UNCHANGED <<dram, cache, bdirty, nlive, ncmd, krun, awaiting, toSend, chan, nreq, answered, issued>>
 
 \* --------------------------------------------------------------------- Next
 Next ==
-  \/ \E c \in Ctxs, g \in GPUs, w \in KWrites : StartKern(c, g, w)
-  \/ \E k \in {"h2d", "d2h"}, c \in Ctxs, r \in Ranges : StartCopy(k, c, r[1], r[2])
-  \/ Alloc \/ Release \/ DrvSend \/ CompleteEmpty
-  \/ \E g \in GPUs : GPUHandle(g) \/ DrvTake(g)
+  \/ \E q \in Queues, c \in Ctxs, g \in GPUs, w \in KWrites : StartKern(q, c, g, w)
+  \/ \E q \in Queues, k \in {"h2d", "d2h"}, c \in Ctxs, r \in Ranges : StartCopy(q, k, c, r[1], r[2])
+  \/ Alloc \/ Release \/ DrvSend
+  \/ \E q \in Queues : CompleteEmpty(q)
+  \/ \E g \in GPUs : GPUHandle(g) \/ KernelFinish(g) \/ DrvTake(g)
   \/ \E p \in PAddr : Evict(p)
 
 Spec == Init /\ [][Next]_vars
 
-Fairness == /\ WF_vars(Release) /\ WF_vars(DrvSend) /\ WF_vars(CompleteEmpty)
-            /\ \A g \in GPUs : WF_vars(GPUHandle(g)) /\ WF_vars(DrvTake(g))
+Fairness == /\ WF_vars(Release) /\ WF_vars(DrvSend) /\ \A q \in Queues : WF_vars(CompleteEmpty(q))
+            /\ \A g \in GPUs : WF_vars(GPUHandle(g)) /\ WF_vars(KernelFinish(g)) /\ WF_vars(DrvTake(g))
 FairSpec == Spec /\ Fairness
 
 \* --------------------------------------------------------------- properties
 Visible(a) == IF cache[PA(a)] # NoVal THEN cache[PA(a)] ELSE dram[PA(a)]
 
-TypeOK == /\ ncmd \in 0..MaxCmds /\ cur.k \in {"none", "h2d", "d2h", "kern"}
+TypeOK == /\ ncmd \in 0..MaxCmds /\ \A q \in Queues : cur[q].k \in {"none", "h2d", "d2h", "kern"}
           /\ \A c \in 1..MaxCmds : done[c] \in 0..2
 
 \* each command completes at most once, and only when every one of its memory
@@ -283,12 +326,13 @@ RoundTrip == \A c \in 1..MaxCmds : done[c] >= 1 => result[c] = expect[c]
 \* whenever the queue is idle, device memory (caches included) is exactly what
 \* the completed operations say: the copied range holds the host bytes and every
 \* other byte is untouched
-OutsideUntouched == cur.k = "none" => \A a \in VAddr : Visible(a) = arch[a]
+OutsideUntouched == AllIdle => \A a \in VAddr : Visible(a) = arch[a]
 
 Stuck == /\ awaiting = <<>> /\ toSend = <<>>
-         /\ \A g \in GPUs : chan[g] = <<>> /\ rsp[g] = <<>>
+         /\ \A g \in GPUs : chan[g] = <<>> /\ rsp[g] = <<>> /\ krun[g].k = "none"
 \* a started command cannot be left behind with nothing in flight
-NoHang == ~(cur.k # "none" /\ Stuck /\ (cur.made > 0 \/ "empty_copy_no_complete" \in Deviations))
+NoHang == \A q \in Queues :
+            ~(cur[q].k # "none" /\ Stuck /\ (cur[q].made > 0 \/ "empty_copy_no_complete" \in Deviations))
 
 \* every started command completes
 Completes == \A c \in 1..MaxCmds : [](ncmd >= c => <>(done[c] = 1))
